@@ -26,6 +26,7 @@ def run(prop, tier, seed, work, ev):
         raise ToolError("Gen_Cmp failed:\n" + r.tail())
     rejects = eng_eval.run_and_judge("all pairs x six operators (document text and literal forms)", e["OUT"], work, ev, drv, nsamples=3)
     rejects += eng_eval.pool_families(["bool", "alias", "litop", "keyword"], work, ev, drv)
+    rejects += eng_eval.varapi_phase(work, ev, drv)
     if tier == "thorough":
         import subprocess
         params = work.path("rand.in")
